@@ -175,22 +175,76 @@ def module_src(where, fns, imports):
     return "\n".join(out) + "\n"
 
 
-CFG = '''import os
+CFG = '''import os, re
+from contextlib import contextmanager
 from monkeytype.config import DefaultConfig
+from monkeytype.db.base import CallTraceStore
 from monkeytype.db.sqlite import SQLiteStore
 ADMIT = %r
+STYLE = %r
+DEFERRED = %r
+# what the filter answers for "yes" / "no": CallTracer goes by truthiness, so any of these pairs is a legitimate filter
+ANSWERS = {"bool": (True, False), "int": (1, 0), "str": ("yes", ""), "none": (True, None),
+           "match": (re.match("y", "y"), re.match("y", "n")), "list": ([0], [])}
+YES, NO = ANSWERS[STYLE]
+class DeferredStore(CallTraceStore):
+    \"\"\"queues the batch object it is handed and writes it to SQLite only when asked at the end\"\"\"
+    def __init__(self, path):
+        self.path = path
+        self.queue = []
+    def add(self, traces):
+        self.queue.append(traces)
+    def filter(self, module, qualname_prefix=None, limit=2000):
+        return []
+    def write_all(self):
+        inner = SQLiteStore.make_store(self.path)
+        for batch in self.queue:
+            inner.add(batch)
+        self.queue = []
+STORE = DeferredStore(%r) if DEFERRED else None
+def finish():
+    if STORE is not None:
+        STORE.write_all()
 class C(DefaultConfig):
     def trace_store(self):
-        return SQLiteStore.make_store(%r)
+        return STORE if DEFERRED else SQLiteStore.make_store(%r)
     def code_filter(self):
-        return lambda code: (os.path.basename(code.co_filename), code.co_qualname) in ADMIT
+        return lambda code: YES if (os.path.basename(code.co_filename), code.co_qualname) in ADMIT else NO
+    @contextmanager
+    def cli_context(self, command):
+        try:
+            yield
+        finally:
+            finish()
 CONFIG = C()
 '''
+ENDINGS = {None: ("", 0), "exit0": ("import sys; sys.exit(0)", 0), "exit3": ("import sys; sys.exit(3)", 3),
+           "raise": ("raise RuntimeError('the traced program fails after its calls')", 1)}
+STYLES = ["bool", "int", "str", "none", "match", "list"]
 
 
-def run_program(rnd, workdir, prog, mode, env_names=None):
+def history_of(prog, tops, counter):
+    H = []
+    fns = prog["fns"]
+
+    def call(fid):
+        counter[0] += 1
+        fr = counter[0]
+        H.append(("KCall", fid, fr))
+        H.append(("KOther", fid, fr))
+        for c in fns[fid].calls:
+            call(c)
+        H.append(("KReturn", fid, fr))
+    for t in tops:
+        call(t)
+    return H
+
+
+def run_program(rnd, workdir, prog, mode, env_names=None, ending=None, deferred=False):
     """mode: 'run-custom' (monkeytype run, custom filter), 'trace-custom' (with monkeytype.trace(CONFIG)),
-    'run-default' (DefaultConfig, optional MONKEYTYPE_TRACE_MODULES).  Returns the case dict."""
+    'run-default' (DefaultConfig, optional MONKEYTYPE_TRACE_MODULES).  `ending`: how the traced block is left after its
+    calls (None: normally; 'exit0' / 'exit3': sys.exit; 'raise': an exception).  `deferred`: the config's store queues the
+    batch objects and writes them when asked at the end.  Returns the case dict."""
     idx = prog["idx"]
     fns = prog["fns"]
     d = os.path.join(workdir, f"e2e_{idx}")
@@ -202,12 +256,29 @@ def run_program(rnd, workdir, prog, mode, env_names=None):
         f.write(module_src("b", fns, []))
     with open(os.path.join(d, "a.py"), "w") as f:
         f.write(module_src("a", fns, ["import b"]))
-    calls = "\n".join(f"{'    ' if mode == 'trace-custom' else ''}r = 1; {fns[t].ref_from(None)}" for t in prog["top"])
+    def call_lines(tops, indent):
+        return "\n".join(f"{indent}r = 1; {fns[t].ref_from(None)}" for t in tops) or f"{indent}pass"
+    calls = call_lines(prog["top"], "    " if mode == "trace-custom" else "")
+    hist = history(prog)
+    sessions = None
+    if mode == "trace-custom" and len(prog["top"]) >= 3 and (idx // 2) % 3 != 2:
+        # a nested session: monkeytype.trace() entered while another one is active.  The inner session has its own tracer and
+        # logger and is flushed first; the outer one must go on recording after the inner one ended.  The top-level calls are
+        # independent (no generated frame is live across a session boundary), so the store order is inner, before, after.
+        top = prog["top"]
+        i = rnd.randrange(1, len(top) - 1)
+        j = rnd.randrange(i + 1, len(top))
+        sessions = {"outer_before": top[:i], "inner": top[i:j], "outer_after": top[j:]}
+        calls = (call_lines(top[:i], "    ") + f"\n    with monkeytype.trace(cfg{idx}.CONFIG):\n" + call_lines(top[i:j], "        ")
+                 + "\n" + call_lines(top[j:], "    "))
+        counter = [0]
+        hist = history_of(prog, top[i:j], counter) + history_of(prog, top[:i], counter) + history_of(prog, top[j:], counter)
     dump = ("import json as _j\n_j.dump({" + ", ".join(f"'{f.fid}': {f.code_expr(fns)}.__code__.co_filename" for f in fns)
             + f"}}, open({names_out!r}, 'w'))\n")
     main_defs = module_src("main", fns, ["import a, b", "import json, textwrap"])
     stdlib_calls = "json.dumps({'k': [1, 2]}); textwrap.dedent('  x')\n"
     admitted = None
+    style = None
     if mode in ("run-custom", "trace-custom"):
         adm = {f.fid for f in fns if rnd.random() < 0.55 or f.name == "trace_types"}
         for ids in collision_groups(fns):             # the filter decides differently for functions sharing a bare name
@@ -221,13 +292,18 @@ def run_program(rnd, workdir, prog, mode, env_names=None):
         base = {"main": script, "a": "a.py", "b": "b.py"}
         admit = {(base[fns[i].where], fns[i].qualname_in(fns)) for i in admitted}    # by co_qualname, not by bare name
         with open(os.path.join(d, f"cfg{idx}.py"), "w") as f:
-            f.write(CFG % (admit, db))
+            style = STYLES[idx % len(STYLES)]
+            f.write(CFG % (admit, style, bool(deferred), db, db))
     env = common.sub_env({"PYTHONPATH": common.REPO + os.pathsep + common.VERIF + os.pathsep + d, "MT_DB_PATH": db})
+    end_stmt, want_rc = ENDINGS[ending]
     if mode == "trace-custom":
-        src = main_defs + f"import monkeytype, cfg{idx}\nwith monkeytype.trace(cfg{idx}.CONFIG):\n{calls}\n    {stdlib_calls}" + dump
+        ind = lambda text: "".join("        " + ln + "\n" for ln in text.splitlines())     # noqa: E731
+        src = (main_defs + f"import monkeytype, cfg{idx}\ntry:\n    with monkeytype.trace(cfg{idx}.CONFIG):\n"
+               + "".join("    " + ln + "\n" for ln in calls.splitlines()) + ind(stdlib_calls) + ind(dump) + ind(end_stmt or "pass")
+               + f"finally:\n    cfg{idx}.finish()\n")
         cmd = [common.PY, script]
     else:
-        src = main_defs + calls + "\n" + stdlib_calls + dump
+        src = main_defs + calls + "\n" + stdlib_calls + dump + end_stmt + "\n"
         cmd = [common.PY, "-m", "monkeytype"] + (["-c", f"cfg{idx}:CONFIG"] if mode == "run-custom" else []) + ["run", script]
     with open(os.path.join(d, script), "w") as f:
         f.write(src)
@@ -237,7 +313,7 @@ def run_program(rnd, workdir, prog, mode, env_names=None):
     err = None
     rows = []
     filenames = {}
-    if p.returncode != 0 or not os.path.exists(names_out):
+    if p.returncode != want_rc or not os.path.exists(names_out):
         err = f"program exited {p.returncode}: {p.stderr[-600:]}"
     else:
         filenames = json.load(open(names_out))
@@ -250,5 +326,66 @@ def run_program(rnd, workdir, prog, mode, env_names=None):
     return {"idx": idx, "mode": mode, "env": env_names, "dir": d, "cmd": " ".join(cmd), "error": err,
             "funcs": [{"id": f.fid, "module": "__main__" if f.where == "main" else f.where, "qualname": f.qualname_in(fns),
                        "co_name": f.name, "co_filename": filenames.get(str(f.fid)), "calls": f.calls} for f in fns],
-            "top": prog["top"], "admitted": admitted, "history": history(prog), "rows": rows,
+            "top": prog["top"], "sessions": sessions, "filter_answers": style, "ending": ending, "deferred_store": bool(deferred), "admitted": admitted, "history": hist, "rows": rows,
+            "sources": {n: open(os.path.join(d, n)).read() for n in sorted(os.listdir(d)) if n.endswith(".py")}}
+
+
+DOUBLE = '''import sys
+def work(x):
+    return x + len([x])
+class K:
+    def run(self, x):
+        return x + len([x])
+if __name__ == "__main__":
+    import %(mod)s as me                 # this very file once more, under its own name
+%(calls)s
+    import json as _j
+    _j.dump({"0": work.__code__.co_filename, "1": me.work.__code__.co_filename,
+             "2": K.run.__code__.co_filename, "3": me.K.run.__code__.co_filename}, open(%(out)r, "w"))
+'''
+
+
+def run_double_load(workdir, idx, order, mode, absolute=True):
+    """One source file loaded twice in the traced run: as __main__ (the script given to `monkeytype run`) and imported
+    under its own name from inside itself; the same functions are called in both copies, in the given order.  Only the calls
+    of the imported copy may be stored, under the module's name."""
+    d = os.path.join(workdir, f"e2e_{idx}")
+    os.makedirs(d)
+    mod = f"dl{idx}"
+    script = os.path.join(d, mod + ".py")
+    db = os.path.join(d, "traces.sqlite3")
+    names_out = os.path.join(d, "filenames.json")
+    exprs = {0: "work(1)", 1: "me.work(2)", 2: "K().run(1)", 3: "me.K().run(2)"}
+    seq = {"main-first": [0, 2, 1, 3], "module-first": [1, 3, 0, 2], "interleaved": [1, 0, 2, 3, 0, 1]}[order]
+    with open(script, "w") as f:
+        f.write(DOUBLE % {"mod": mod, "calls": "\n".join("    " + exprs[i] for i in seq), "out": names_out})
+    funcs = [("__main__", "work"), (mod, "work"), ("__main__", "K.run"), (mod, "K.run")]
+    admitted = None
+    if mode == "run-custom":
+        admitted = [0, 1, 2, 3]
+        with open(os.path.join(d, f"cfg{idx}.py"), "w") as f:
+            f.write(CFG % ({(mod + ".py", "work"), (mod + ".py", "K.run")}, "bool", False, db, db))
+    env = common.sub_env({"PYTHONPATH": common.REPO + os.pathsep + common.VERIF + os.pathsep + d, "MT_DB_PATH": db})
+    cmd = [common.PY, "-m", "monkeytype"] + (["-c", f"cfg{idx}:CONFIG"] if mode == "run-custom" else []) + \
+          ["run", script if absolute else mod + ".py"]
+    p = subprocess.run(cmd, cwd=d, env=env, capture_output=True, text=True, timeout=120)
+    err, rows, filenames = None, [], {}
+    if p.returncode != 0 or not os.path.exists(names_out):
+        err = f"program exited {p.returncode}: {p.stderr[-600:]}"
+    else:
+        filenames = json.load(open(names_out))
+        if os.path.exists(db):
+            con = sqlite3.connect(db)
+            try:
+                rows = [list(r) for r in con.execute("SELECT module, qualname FROM monkeytype_call_traces ORDER BY rowid")]
+            finally:
+                con.close()
+    hist = []
+    for fr, i in enumerate(seq, 1):
+        hist += [("KCall", i, fr), ("KOther", i, fr), ("KReturn", i, fr)]
+    return {"idx": idx, "mode": mode, "env": None, "dir": d, "cmd": " ".join(cmd), "error": err,
+            "funcs": [{"id": i, "module": m, "qualname": q, "co_name": q.split(".")[-1], "co_filename": filenames.get(str(i)),
+                       "calls": []} for i, (m, q) in enumerate(funcs)],
+            "top": seq, "sessions": None, "filter_answers": "bool" if admitted else None, "ending": None, "deferred_store": False,
+            "double_load": order, "admitted": admitted, "history": hist, "rows": rows,
             "sources": {n: open(os.path.join(d, n)).read() for n in sorted(os.listdir(d)) if n.endswith(".py")}}
